@@ -41,6 +41,15 @@ let alt_orders (order : int list) : int list list =
   if List.length order <= 5 then perms order
   else [order; List.rev order; List.sort compare order; List.rev (List.sort compare order)]
 
+(* two labelings of the same nodes induce the same partition (numbering aside) *)
+let same_classes (a : n list) (b : n list) : bool =
+  List.length a = List.length b &&
+  (let h1 = Hashtbl.create 64 and h2 = Hashtbl.create 64 in
+   List.for_all2 (fun x y ->
+       let x = int_of_n x and y = int_of_n y in
+       (match Hashtbl.find_opt h1 x with Some y' -> y' = y | None -> Hashtbl.replace h1 x y; true)
+       && (match Hashtbl.find_opt h2 y with Some x' -> x' = x | None -> Hashtbl.replace h2 y x; true)) a b)
+
 let refine_limit = 200
 let mono_limit = 60
 
@@ -65,8 +74,10 @@ let run_comb (args : (string * string) list) : string =
        let some_order = out = r || List.exists (fun o ->
            match llp_combine_labels (family_in args fam o) with Some r' -> r' = out | None -> false)
            (alt_orders order) in
-       add "combined" (if some_order then "ok" else "FAIL(model:" ^ short (str_nl r) ^ ")");
-       add "i_combined_dirorder" (if out = r then "same" else "other-tie-order");
+       (* the NUMBERING of the combined classes is not fixed by the property (dense in [0,k) is,
+          aspect dense): the model must yield the same classes *)
+       add "combined" (if some_order || same_classes out r then "ok" else "FAIL(model:" ^ short (str_nl r) ^ ")");
+       add "i_combined_numbering" (if out = r then "same" else if some_order then "other-tie-order" else "other-numbering");
        add "length" (ok (List.length out = n));
        add "dense" (ok (check_dense out));
        add "refine" (if n <= refine_limit then ok (check_refinement out fam) else "skip");
@@ -137,7 +148,7 @@ let run_run (args : (string * string) list) : string =
        let some_order = r = combined || List.exists (fun o ->
            match llp_combine_labels (family_in args stored o) with Some r' -> r' = combined | None -> false)
            (alt_orders order) in
-       add "combined" (if some_order then "ok" else "FAIL(model:" ^ short (str_nl r) ^ ")"));
+       add "combined" (if some_order || same_classes combined r then "ok" else "FAIL(model:" ^ short (str_nl r) ^ ")"));
     let mr = labels_to_ranks combined in
     add "ranks" (if mr = ranks then "ok" else "FAIL(model:" ^ short (str_nl mr) ^ ")");
     let mpg = permute_graph ranks g in
